@@ -41,7 +41,7 @@ P = {
          "Enumerated alphabet only.",
          "DESIGN.md 5 (C11)"),
  "C16": (True, BFS + "; register machines (A, B : G ; s : Fr) over G1 and G2, then the full product of reached values through the pairing entry points",
-         "Every operation sequence up to the depth bound over 29 operations (add, sub, neg, scalar multiplication on either side, normalize, affine and encode/decode round trips, swap, resets, scalar updates) on the real code; states de-duplicated on their exact concrete content plus the tracked discrete logs; in every state the denoted points, is_zero, == in both orders, all three encodings and the scalar register are exactly those predicted from the discrete logs; every reached G1 value x every reached G2 value x 3 entry points gives g^(dd').",
+         "Every operation sequence up to the depth bound over 25 operations (add, sub, neg, scalar multiplication on either side, normalize, affine and encode/decode round trips, swap, resets, scalar updates) on the real code; states de-duplicated on their exact concrete content plus the tracked discrete logs; in every state the denoted points, is_zero, == in both orders, all three encodings and the scalar register are exactly those predicted from the discrete logs; every reached G1 value x every reached G2 value x 3 entry points gives g^(dd').",
          "Bounded depth; scalar alphabet {0,1,2,r-1} and what the machine derives from it. Trusted: rustc, num-bigint, reference model.",
          "DESIGN.md 5 (C16)"),
  "C17": (True, GRID + "; FQ4^2, FQ12^2 through the cfg-guarded hook module, every supported Frobenius code, every addition-chain exponent, every small exponent, both final exponentiations, both Miller loops",
